@@ -1,10 +1,9 @@
 SPECIFICATION Spec
 CONSTANTS
  BugDupChecks = FALSE  BugIterEmpty = FALSE  BugAppendTotal = FALSE
- NSlots = 2  MaxStreams = 3  MaxRecs = 2
+ NSlots = 3  MaxStreams = 70  MaxRecs = 4700
  USizes <- TinyU  VSizes <- TinyV  Pads <- TinyP  FlagSet <- TinyF
- Volume = FALSE
- MinSteps = 1  MaxSteps = 3
-VIEW View
+ Volume = TRUE
+ MinSteps = 7  MaxSteps = 7
 CONSTRAINT Emit
 CHECK_DEADLOCK FALSE
